@@ -222,6 +222,12 @@ func init() {
 		rule: "object schemas at root, nested, array-element, $ref and allOf/anyOf positions with 0-5 required keys; every single required key and every subset (<=4 keys) is removed from valid documents; optional keys removed and nullable keys set to null must stay accepted; verdict vs model",
 	})
 	regSem(&semSpec{id: "C06",
+		extra: func(ctx *Ctx, i int, r *sg.Rng) *sem.Case {
+			if i < 12 {
+				return stringOverlapCase(i)
+			}
+			return nil
+		},
 		opts:    sg.Opts{MaxDepth: 2, NoFormats: true, RootKinds: true, W: map[string]float64{"string": 10, "integer": 0.5, "number": 0.5, "enum": 0.3, "ref": 2.5, "array": 1.5}, PNullable: 0.3},
 		classes: docgen.Classes{"string": true},
 		own:     classOwner("string", "valid"),
@@ -261,7 +267,10 @@ func init() {
 			if i < 32 {
 				return refDefaultCase(i)
 			}
-			return sameNameTwinCase(ctx, i-32, r)
+			if i < 56 {
+				return stringDefaultCase(i - 32)
+			}
+			return sameNameTwinCase(ctx, i-56, r)
 		},
 		values: true, defaults: true,
 		nQuick: 400, nThor: 6000, valid: 3, perSite: 3, maxDocs: 120, minDec: 2000,
@@ -855,9 +864,11 @@ func formatCase(i int) *sem.Case {
 	root := &sg.Schema{Types: []string{"object"}, Defs: []sg.Prop{{Name: "Stamp", S: def}}, Props: []sg.Prop{
 		{Name: "req", S: fs()}, {Name: "opt", S: fs()}, {Name: "nul", S: &sg.Schema{Types: []string{"string", "null"}, Format: f}},
 		{Name: "list", S: &sg.Schema{Types: []string{"array"}, Items: fs()}},
+		{Name: "reqnul", S: &sg.Schema{Types: []string{"null", "string"}, Format: f}},
+		{Name: "nullist", S: &sg.Schema{Types: []string{"array"}, Items: &sg.Schema{Types: []string{"string", "null"}, Format: f}}},
 		{Name: "nested", S: &sg.Schema{Types: []string{"object"}, Props: []sg.Prop{{Name: "at", S: fs()}}, Required: []string{"at"}}},
 		{Name: "viaRef", S: &sg.Schema{Ref: "#/$defs/Stamp", Target: def}},
-	}, Required: []string{"req"}}
+	}, Required: []string{"req", "reqnul"}}
 	c := &sem.Case{Root: root, Sig: "format/" + f}
 	if (i/len(formats))%2 == 1 {
 		c.Args = []string{"--extra-imports"}
@@ -866,9 +877,9 @@ func formatCase(i int) *sem.Case {
 	for k, sv := range samples {
 		other := samples[(k+1)%len(samples)]
 		c.Docs = append(c.Docs,
-			docgen.Doc{V: jsonx.Obj{{K: "req", V: sv}}, Class: "format", Label: "required-only"},
-			docgen.Doc{V: jsonx.Obj{{K: "req", V: sv}, {K: "opt", V: other}, {K: "nul", V: sv}, {K: "list", V: []any{sv, other}}, {K: "nested", V: jsonx.Obj{{K: "at", V: sv}}}, {K: "viaRef", V: other}}, Class: "format", Label: "everywhere"},
-			docgen.Doc{V: jsonx.Obj{{K: "req", V: other}, {K: "nul", V: nil}, {K: "list", V: []any{}}}, Class: "format", Label: "null-and-empty"})
+			docgen.Doc{V: jsonx.Obj{{K: "req", V: sv}, {K: "reqnul", V: other}}, Class: "format", Label: "required-only"},
+			docgen.Doc{V: jsonx.Obj{{K: "req", V: sv}, {K: "reqnul", V: sv}, {K: "opt", V: other}, {K: "nul", V: sv}, {K: "list", V: []any{sv, other}}, {K: "nullist", V: []any{other, sv}}, {K: "nested", V: jsonx.Obj{{K: "at", V: sv}}}, {K: "viaRef", V: other}}, Class: "format", Label: "everywhere"},
+			docgen.Doc{V: jsonx.Obj{{K: "req", V: other}, {K: "reqnul", V: nil}, {K: "nul", V: nil}, {K: "list", V: []any{}}, {K: "nullist", V: []any{sv, nil, other}}}, Class: "format", Label: "null-and-empty"})
 	}
 	return c
 }
@@ -1067,5 +1078,79 @@ func dashNameCase(i int) *sem.Case {
 	full := jsonx.Obj{{K: "file", V: "a.go"}, {K: "+", V: jsonx.N(3)}, {K: "-", V: jsonx.N(1)}}
 	c.Docs = append(c.Docs, docgen.Doc{V: wrap(full), Class: "pinned", Label: "valid"}, docgen.Doc{V: wrap(full.Set("-", jsonx.N(-5))), Class: "pinned", Label: "minimum-on-dash"},
 		docgen.Doc{V: wrap(full.Del("-")), Class: "pinned", Label: "dash-missing"}, docgen.Doc{V: wrap(full.Del("+")), Class: "pinned", Label: "plus-missing"}, docgen.Doc{V: wrap(full.Set("-", "x")), Class: "pinned", Label: "dash-wrong-type"})
+	return c
+}
+
+// HostileDefaultStrings are default texts that are awkward to write as a Go literal.
+var HostileDefaultStrings = []string{"HTTP/1.1 200 OK\r\nServer: x\r\n\r\n", "cr\ronly", "lf\nonly", "tab\there", "q\"uote", "back\\slash", "tick`s", "both`\r\n", "100% %d %s", "nul-free\u0001ctl", " sep", "emoji😀", "  lead and trail  ", "", "'single'", "${var} $(cmd)", "// comment", "/* block */", "\\n not a newline", strings.Repeat("long ", 60)}
+
+// stringDefaultCase: one optional string property per hostile default text (plain, inside an array default, behind a
+// named string definition): absent and null decode to exactly that text.
+func stringDefaultCase(i int) *sem.Case {
+	root := &sg.Schema{Types: []string{"object"}}
+	named := &sg.Schema{Types: []string{"string"}}
+	root.Defs = []sg.Prop{{Name: "Text", S: named}}
+	all := jsonx.Obj{}
+	lo := (i % 4) * 5
+	for k, d := range HostileDefaultStrings[lo : lo+5] {
+		key := fmt.Sprintf("s%d", lo+k)
+		switch (i / 4) % 3 {
+		case 0:
+			root.Props = append(root.Props, sg.Prop{Name: key, S: &sg.Schema{Types: []string{"string"}, Default: d, HasDefault: true}})
+			all = append(all, jsonx.KV{K: key, V: "present"})
+		case 1:
+			root.Props = append(root.Props, sg.Prop{Name: key, S: &sg.Schema{Types: []string{"array"}, Items: &sg.Schema{Types: []string{"string"}}, Default: []any{d, "plain"}, HasDefault: true}})
+			all = append(all, jsonx.KV{K: key, V: []any{"present"}})
+		case 2:
+			root.Props = append(root.Props, sg.Prop{Name: key, S: &sg.Schema{Ref: "#/$defs/Text", Target: named, Default: d, HasDefault: true}})
+			all = append(all, jsonx.KV{K: key, V: "present"})
+		}
+	}
+	c := &sem.Case{Root: root, Sig: fmt.Sprintf("string-default/%d", i%12), NoAuto: true}
+	if (i/12)%2 == 1 {
+		c.Args = []string{"--extra-imports"}
+	}
+	c.Docs = append(c.Docs, docgen.Doc{V: jsonx.Obj{}, Class: "default", Label: "all-absent"}, docgen.Doc{V: all, Class: "default", Label: "all-present"})
+	for _, kv := range all {
+		c.Docs = append(c.Docs, docgen.Doc{V: jsonx.Obj{{K: kv.K, V: nil}}, Class: "default", Label: "null-" + kv.K}, docgen.Doc{V: all.Del(kv.K), Class: "default", Label: "absent-" + kv.K})
+	}
+	return c
+}
+
+// stringOverlapCase: one string property declared by two allOf branches, the length limits in the earlier branch and
+// another rule (pattern, or nothing) in the later one - and the other way round: every stated limit keeps counting.
+func stringOverlapCase(i int) *sem.Case {
+	lim := func() *sg.Schema { return &sg.Schema{Types: []string{"string"}, MinLen: 3, MaxLen: 8} }
+	other := func() *sg.Schema {
+		switch (i / 2) % 3 {
+		case 0:
+			return &sg.Schema{Types: []string{"string"}, Pattern: "^[a-z]+$"}
+		case 1:
+			return &sg.Schema{Types: []string{"string"}}
+		}
+		return &sg.Schema{Types: []string{"string"}, MinLen: 1}
+	}
+	first, second := lim(), other()
+	if i%2 == 1 {
+		first, second = other(), lim()
+	}
+	comp := &sg.Schema{AllOf: []*sg.Schema{
+		{Types: []string{"object"}, Props: []sg.Prop{{Name: "login", S: first}, {Name: "a", S: &sg.Schema{Types: []string{"string"}, MaxLen: 4}}}},
+		{Types: []string{"object"}, Props: []sg.Prop{{Name: "login", S: second}, {Name: "b", S: &sg.Schema{Types: []string{"string"}, MinLen: 2}}}},
+	}}
+	root := &sg.Schema{Types: []string{"object"}, Props: []sg.Prop{{Name: "acct", S: comp}}}
+	if (i/6)%2 == 1 {
+		comp.Types = []string{"object"}
+		root = comp
+	}
+	c := &sem.Case{Root: root, Sig: fmt.Sprintf("string-overlap/%d", i%12), NoAuto: true}
+	for _, login := range []string{"ab", "abc", "abcdefgh", "abcdefghi", "abcdefghijklmnop", "", "日本語", "日本語日本語日本語"} {
+		o := jsonx.Obj{{K: "login", V: login}, {K: "a", V: "abcd"}, {K: "b", V: "ab"}}
+		var d any = jsonx.Obj{{K: "acct", V: o}}
+		if root == comp {
+			d = o
+		}
+		c.Docs = append(c.Docs, docgen.Doc{V: d, Class: "overlap", Label: fmt.Sprintf("login-len-%d", len([]rune(login)))})
+	}
 	return c
 }
